@@ -140,191 +140,7 @@ def init : State :=
     ctxDone := false, torn := false, errVal := false, errClosed := false, hookOk := false,
     fl := .zero, rPos := false, pPos := false, invProd := false, invWr := false, termHook := false }
 
-inductive Ev where
-  | m | r | w                         -- internal step of M / R / W (rendezvous: the receiver's side)
-  | hookOk | hookFail                 -- outcome of the connect hook
-  | hRet | hSlow                      -- the handler returns / settles to wait for cancellation
-  | readGood | readBad | readSkip     -- Recv returns a message the client sent        (needs the client)
-  | readErr                           -- Recv returns a non-encoding error
-  | wOk                               -- Send returns nil                              (needs the client)
-  | wFail                             -- Send returns an error
-  | recvCancel                        -- recv's `<-ctx.Done()` case (receive context cancelled)
-  | cliGone | srvCancel               -- pure environment events
-  deriving DecidableEq, Repr, Inhabited
-
-/-- events that need an action of the client or of the rest of the server: a connection whose only
-    enabled events are of this kind is WAITING, not stuck. -/
-def Ev.isEnv : Ev → Bool
-  | .readGood | .readBad | .readSkip | .wOk | .cliGone | .recvCancel | .srvCancel => true
-  | _ => false
-
-def unavailable (s : State) : Bool := s.closed || s.ctxDone
-
-/-- the tx channel object is closed (old code only). -/
-def txClosed (p : Params) (s : State) : Bool := p.closesTx && s.torn
-
-/-- rx is closed ⇔ the reader has ended (`defer close(c.rx)` is its last action). -/
-def rxClosed (s : State) : Bool := s.r == .ended
-
-/-- third step of terminate: swap tx for nil (the old code also closed it), close the stream. -/
-def term3 (p : Params) (s : State) : State :=
-  if p.closesTx && s.torn then { s with fault := .closeOfClosed } else { s with torn := true }
-
-def closeErrCh (s : State) : State :=
-  if s.errClosed then { s with fault := .closeOfClosed } else { s with errClosed := true }
-
-def stepM (p : Params) (s : State) : List (Ev × State) :=
-  match s.m with
-  | .hook => [(.hookOk, { s with hookOk := true, m := .recvCheck }),
-              (.hookFail, { s with hookOk := false, m := .c1 })]
-  | .recvCheck => [(.m, { s with m := if unavailable s then .dfr else .recvSel })]
-  | .recvSel =>
-    (if s.r = .hand then [(Ev.m, { s with m := .handle, pPos := s.rPos, rPos := false, r := .check })]
-     else if s.r = .handBad then
-      [(Ev.m, if s.invProd then { s with fault := .invalidTwice }
-              else { s with m := .sendCheck, invProd := true, r := .check })]
-     else []) ++
-    (if rxClosed s then [(Ev.m, { s with m := .dfr })] else []) ++
-    [(Ev.recvCancel, { s with m := .t1 })] ++
-    (if s.ctxDone then [(Ev.m, { s with m := .t1 })] else [])
-  | .handle => [(.hRet, { s with m := .ctxCheck }), (.hSlow, { s with m := .handleSlow })]
-  | .handleSlow => if s.ctxDone then [(.hRet, { s with m := .ctxCheck })] else []
-  | .ctxCheck => [(.m, { s with m := if s.ctxDone then .dfr else .sendCheck })]
-  | .sendCheck => [(.m, { s with m := if unavailable s then .dfr else .loadTx })]
-  | .loadTx => [(.m, { s with m := if s.torn then .sendSelNil else .sendSel,
-                              errVal := false, errClosed := false })]
-  | .sendSel =>
-    (if txClosed p s then [(Ev.m, { s with fault := .sendOnClosed })] else []) ++
-    (if !txClosed p s && s.w = .sel then [(Ev.m, { s with m := .waitErr, w := .io })] else []) ++
-    (if s.ctxDone then [(Ev.m, { closeErrCh s with m := .t1 })] else [])
-  | .sendSelNil => if s.ctxDone then [(.m, { closeErrCh s with m := .t1 })] else []
-  | .waitErr =>
-    (if s.errVal then [(Ev.m, { s with errVal := false, m := .dfr })] else []) ++
-    (if !s.errVal && s.errClosed then
-      [(Ev.m, { s with errClosed := false, m := if s.invProd then .dfr else .recvCheck })]
-     else []) ++
-    (if s.ctxDone then [(Ev.m, { s with m := .t1 })] else [])
-  | .t1 => [(.m, if s.closed then { s with m := .dfr } else { s with closed := true, m := .t2 })]
-  | .t2 => [(.m, { s with ctxDone := true, m := .t3 })]
-  | .t3 => [(.m, { term3 p s with m := .dfr })]
-  | .dfr => [(.m, if !s.hookOk then { s with m := .c1 }
-                  else if s.termHook then { s with fault := .hookTwice }
-                  else { s with termHook := true, m := .c1 })]
-  | .c1 => [(.m, if s.closed then { s with m := .wgDone } else { s with closed := true, m := .c2 })]
-  | .c2 => [(.m, { s with ctxDone := true, m := .c3 })]
-  | .c3 => [(.m, { term3 p s with m := .wgDone })]
-  | .wgDone => [(.m, { s with m := .ended })]
-  | .ended => []
-
-def Cnt.inc : Cnt → Cnt
-  | .zero => .one
-  | _ => .two
-
-def stepR (p : Params) (s : State) : List (Ev × State) :=
-  match s.r with
-  | .check => [(.r, { s with r := if s.closed then .closeRx else .recv })]
-  | .recv =>
-    (if !s.torn then
-      [(Ev.readGood, if s.fl = .two then { s with fault := .order }
-                     else { s with r := .hand, rPos := s.fl != .zero, fl := s.fl.inc }),
-       (Ev.readBad, { s with r := .handBad }),
-       (Ev.readSkip, { s with r := .check })]
-     else []) ++
-    (if s.torn || s.cliGone then [(Ev.readErr, { s with r := .t1 })] else [])
-  | .hand => if s.ctxDone then [(.r, { s with r := .closeRx, rPos := false })] else []
-  | .handBad => if s.ctxDone then [(.r, { s with r := .closeRx })] else []
-  | .t1 => [(.r, if s.closed then { s with r := .closeRx } else { s with closed := true, r := .t2 })]
-  | .t2 => [(.r, { s with ctxDone := true, r := .t3 })]
-  | .t3 => [(.r, { term3 p s with r := .closeRx })]
-  | .closeRx => [(.r, { s with r := .ended })]
-  | .ended => []
-
-/-- the bookkeeping of a successful write. -/
-def written (s : State) : State :=
-  if s.invProd then
-    (if s.invWr then { s with fault := .invalidTwice } else { s with w := .closeOk, invWr := true })
-  else if s.pPos || s.fl = .zero then { s with fault := .order }
-  else { s with w := .closeOk, pPos := false, rPos := false,
-                fl := if s.fl = .two then .one else .zero }
-
-def stepW (p : Params) (s : State) : List (Ev × State) :=
-  match s.w with
-  | .check => [(.w, { s with w := if s.closed then .ended else .sel })]
-  | .sel =>
-    (if txClosed p s then [(Ev.w, { s with w := .ended })] else []) ++
-    (if s.ctxDone then [(Ev.w, { s with w := .ended })] else [])
-  | .io =>
-    (if !s.torn then [(Ev.wOk, written s)] else []) ++
-    (if s.torn || s.cliGone then [(Ev.wFail, { s with w := .errSend, pPos := false })] else [])
-  | .closeOk => [(.w, { closeErrCh s with w := .check })]
-  | .errSend =>
-    if s.errClosed then [(.w, { s with fault := .sendOnClosed })]
-    else if p.errChCap > 0 then
-      (if s.errVal then [] else [(.w, { s with errVal := true, w := .errClose })])
-    else
-      -- unbuffered: a rendezvous with M waiting in `waitErr`, otherwise blocked
-      (if s.m = .waitErr then [(.w, { s with w := .errClose, m := .dfr })] else [])
-  | .errClose => [(.w, { closeErrCh s with w := .t1 })]
-  | .t1 => [(.w, if s.closed then { s with w := .ended } else { s with closed := true, w := .t2 })]
-  | .t2 => [(.w, { s with ctxDone := true, w := .t3 })]
-  | .t3 => [(.w, { term3 p s with w := .ended })]
-  | .ended => []
-
-def stepEnv (s : State) : List (Ev × State) :=
-  (if !s.cliGone then [(Ev.cliGone, { s with cliGone := true })] else []) ++
-  (if !s.ctxDone then [(Ev.srvCancel, { s with ctxDone := true })] else [])
-
-/-- labelled successors. A faulted state has none (a panic takes the whole process down). -/
-def stepL (p : Params) (s : State) : List (Ev × State) :=
-  if s.fault != .none then [] else stepM p s ++ stepR p s ++ stepW p s ++ stepEnv s
-
-def sys (p : Params) : Sys State := { init := init, step := fun s => (stepL p s).map (·.2) }
-
-/-! ### predicates -/
-
-def allEnded (s : State) : Bool := s.m == .ended && s.r == .ended && s.w == .ended
-
-/-- a Go run-time panic. -/
-def crashed (s : State) : Bool := s.fault == .sendOnClosed || s.fault == .closeOfClosed
-
-/-- the peer has gone or the connection context is cancelled, a goroutine has not ended, and
-    nothing the server itself can do is enabled: the remaining goroutines are kept forever. -/
-def stuck (p : Params) (s : State) : Bool :=
-  (s.cliGone || s.ctxDone) && !allEnded s && s.fault == .none &&
-    ((stepL p s).all (fun e => e.1.isEnv))
-
-/-- the one shape in which the CURRENT code does keep the goroutines of a connection whose client
-    has gone: the handler waits for the cancellation of its context while the reader, holding a
-    pipelined message it cannot deliver, is not reading and therefore never sees the end of the
-    stream. Only the handler returning by itself or the server context (Shutdown) ends it. -/
-def waitsOnPipelined (s : State) : Bool :=
-  s.m == .handleSlow && (s.r == .hand || s.r == .handBad) && !s.ctxDone
-
-/-- the connection is live and idle: the owner waits for the next request, the reader holds none. -/
-def idleLive (s : State) : Bool :=
-  s.m == .recvSel && s.r != .hand && s.r != .handBad && !s.closed && !s.ctxDone
-
-/-- responses are not the in-order, one-for-one image of the decodable requests read. -/
-def misordered (s : State) : Bool :=
-  s.fault == .order || (idleLive s && s.fl != .zero)
-
-/-- the invalid-message response: a second one, one written that was never produced, or the
-    connection goes on serving after it. -/
-def invalidBad (s : State) : Bool :=
-  s.fault == .invalidTwice || (s.invWr && !s.invProd) ||
-  (s.invProd && (s.m == .handle || s.m == .handleSlow || s.m == .recvSel || s.m == .recvCheck))
-
-/-- terminate hook: twice, without a successful connect hook, not exactly once when the owner has
-    ended after a successful connect hook, or before a handler / the connect hook. -/
-def hookBad (s : State) : Bool :=
-  s.fault == .hookTwice || (s.termHook && !s.hookOk) ||
-  (s.m == .ended && s.termHook != s.hookOk) ||
-  (s.termHook && (s.m == .handle || s.m == .handleSlow || s.m == .hook || s.m == .recvSel))
-
-def bad (p : Params) (s : State) : Bool :=
-  crashed s || (stuck p s && !waitsOnPipelined s) || misordered s || invalidBad s || hookBad s
-
-/-! ### coding -/
+/-! ### numbering of the enumerations (used by the coding and by the fast equality tests) -/
 
 def MPc.toNat : MPc → Nat
   | .hook => 0 | .recvCheck => 1 | .recvSel => 2 | .handle => 3 | .handleSlow => 4 | .ctxCheck => 5
@@ -372,6 +188,282 @@ theorem Fault.toNat_lt (x : Fault) : x.toNat < 6 := by cases x <;> decide
 theorem Cnt.toNat_lt (x : Cnt) : x.toNat < 3 := by cases x <;> decide
 theorem bToNat_lt (b : Bool) : bToNat b < 2 := by cases b <;> decide
 
+
+/-- equality tests written with `Nat.beq` on the constructor numbers: the kernel evaluates them in
+    a few steps (the derived `DecidableEq` instances carry proofs and are much slower there). -/
+def MPc.is (a b : MPc) : Bool := Nat.beq a.toNat b.toNat
+def RPc.is (a b : RPc) : Bool := Nat.beq a.toNat b.toNat
+def WPc.is (a b : WPc) : Bool := Nat.beq a.toNat b.toNat
+def Fault.is (a b : Fault) : Bool := Nat.beq a.toNat b.toNat
+def Cnt.is (a b : Cnt) : Bool := Nat.beq a.toNat b.toNat
+
+inductive Ev where
+  | m | r | w                         -- internal step of M / R / W (rendezvous: the receiver's side)
+  | hookOk | hookFail                 -- outcome of the connect hook
+  | hRet | hSlow                      -- the handler returns / settles to wait for cancellation
+  | readGood | readBad | readSkip     -- Recv returns a message the client sent        (needs the client)
+  | readErr                           -- Recv returns a non-encoding error
+  | wOk                               -- Send returns nil                              (needs the client)
+  | wFail                             -- Send returns an error
+  | recvCancel                        -- recv's `<-ctx.Done()` case (receive context cancelled)
+  | cliGone | srvCancel               -- pure environment events
+  deriving DecidableEq, Repr, Inhabited
+
+/-- events that need an action of the client or of the rest of the server: a connection whose only
+    enabled events are of this kind is WAITING, not stuck. -/
+def Ev.isEnv : Ev → Bool
+  | .readGood | .readBad | .readSkip | .wOk | .cliGone | .recvCancel | .srvCancel => true
+  | _ => false
+
+/-! ### field updates
+  One small definition per field (and one per program counter value below): the kernel instantiates
+  the body of a definition each time it unfolds it, so small bodies keep the certificate check fast. -/
+
+def State.setM (s : State) (x : MPc) : State := { s with m := x }
+def State.setR (s : State) (x : RPc) : State := { s with r := x }
+def State.setW (s : State) (x : WPc) : State := { s with w := x }
+def State.setCliGone (s : State) (x : Bool) : State := { s with cliGone := x }
+def State.setFault (s : State) (x : Fault) : State := { s with fault := x }
+def State.setClosed (s : State) (x : Bool) : State := { s with closed := x }
+def State.setCtxDone (s : State) (x : Bool) : State := { s with ctxDone := x }
+def State.setTorn (s : State) (x : Bool) : State := { s with torn := x }
+def State.setErrVal (s : State) (x : Bool) : State := { s with errVal := x }
+def State.setErrClosed (s : State) (x : Bool) : State := { s with errClosed := x }
+def State.setHookOk (s : State) (x : Bool) : State := { s with hookOk := x }
+def State.setFl (s : State) (x : Cnt) : State := { s with fl := x }
+def State.setRPos (s : State) (x : Bool) : State := { s with rPos := x }
+def State.setPPos (s : State) (x : Bool) : State := { s with pPos := x }
+def State.setInvProd (s : State) (x : Bool) : State := { s with invProd := x }
+def State.setInvWr (s : State) (x : Bool) : State := { s with invWr := x }
+def State.setTermHook (s : State) (x : Bool) : State := { s with termHook := x }
+
+/-- `checkAvailable` fails. (Two atomic loads of monotone flags: one atomic step is exact.) -/
+def unavailable (s : State) : Bool := s.closed || s.ctxDone
+
+/-- the tx channel object is closed (old code only). -/
+def txClosed (p : Params) (s : State) : Bool := p.closesTx && s.torn
+
+/-- rx is closed ⇔ the reader has ended (`defer close(c.rx)` is its last action). -/
+def rxClosed (s : State) : Bool := s.r.is .ended
+
+/-- terminate, step 3: swap tx for nil (the old code also closed it), close the stream. -/
+def term3 (p : Params) (s : State) : State :=
+  bif p.closesTx && s.torn then s.setFault .closeOfClosed else s.setTorn true
+
+def closeErrCh (s : State) : State :=
+  bif s.errClosed then s.setFault .closeOfClosed else s.setErrClosed true
+
+/-! ### owner M -/
+
+def mHook (s : State) : List (Ev × State) :=
+  [(.hookOk, (s.setHookOk true).setM .recvCheck), (.hookFail, s.setM .c1)]
+
+def mRecvCheck (s : State) : List (Ev × State) :=
+  [(.m, s.setM (bif unavailable s then .dfr else .recvSel))]
+
+/-- the rendezvous on rx (R is at `hand` / `handBad`): a request starts its handler; an encoding
+    error produces the invalid-message response, to be sent, after which the loop is left. -/
+def mTake (s : State) : List (Ev × State) :=
+  bif s.r.is .hand then [(.m, (((s.setM .handle).setPPos s.rPos).setRPos false).setR .check)]
+  else bif s.r.is .handBad then
+    [(.m, bif s.invProd then s.setFault .invalidTwice
+          else ((s.setM .sendCheck).setInvProd true).setR .check)]
+  else []
+
+def mRecvSel (s : State) : List (Ev × State) :=
+  mTake s ++
+  (bif rxClosed s then [(Ev.m, s.setM .dfr)] else []) ++
+  [(Ev.recvCancel, s.setM .t1)] ++
+  (bif s.ctxDone then [(Ev.m, s.setM .t1)] else [])
+
+def mHandle (s : State) : List (Ev × State) :=
+  [(.hRet, s.setM .ctxCheck), (.hSlow, s.setM .handleSlow)]
+
+def mHandleSlow (s : State) : List (Ev × State) :=
+  bif s.ctxDone then [(.hRet, s.setM .ctxCheck)] else []
+
+def mCtxCheck (s : State) : List (Ev × State) :=
+  [(.m, s.setM (bif s.ctxDone then .dfr else .sendCheck))]
+
+def mSendCheck (s : State) : List (Ev × State) :=
+  [(.m, s.setM (bif unavailable s then .dfr else .loadTx))]
+
+def mLoadTx (s : State) : List (Ev × State) :=
+  [(.m, ((s.setM (bif s.torn then .sendSelNil else .sendSel)).setErrVal false).setErrClosed false)]
+
+/-- the `<-c.ctx.Done()` case of send's outer select: close(errCh), terminate. -/
+def mSendAbort (s : State) : List (Ev × State) :=
+  bif s.ctxDone then [(.m, (closeErrCh s).setM .t1)] else []
+
+def mSendSel (p : Params) (s : State) : List (Ev × State) :=
+  (bif txClosed p s then [(Ev.m, s.setFault .sendOnClosed)] else []) ++
+  (bif !txClosed p s && s.w.is .sel then [(Ev.m, (s.setM .waitErr).setW .io)] else []) ++
+  mSendAbort s
+
+def mWaitErr (s : State) : List (Ev × State) :=
+  (bif s.errVal then [(Ev.m, (s.setErrVal false).setM .dfr)] else []) ++
+  (bif !s.errVal && s.errClosed then
+    [(Ev.m, (s.setErrClosed false).setM (bif s.invProd then .dfr else .recvCheck))]
+   else []) ++
+  (bif s.ctxDone then [(Ev.m, s.setM .t1)] else [])
+
+/-- the deferred terminate hook (registered only after a successful connect hook). -/
+def mDfr (s : State) : List (Ev × State) :=
+  [(.m, bif !s.hookOk then s.setM .c1
+        else bif s.termHook then s.setFault .hookTwice
+        else (s.setTermHook true).setM .c1)]
+
+def stepM (p : Params) (s : State) : List (Ev × State) :=
+  match s.m with
+  | .hook => mHook s
+  | .recvCheck => mRecvCheck s
+  | .recvSel => mRecvSel s
+  | .handle => mHandle s
+  | .handleSlow => mHandleSlow s
+  | .ctxCheck => mCtxCheck s
+  | .sendCheck => mSendCheck s
+  | .loadTx => mLoadTx s
+  | .sendSel => mSendSel p s
+  | .sendSelNil => mSendAbort s
+  | .waitErr => mWaitErr s
+  | .t1 => [(.m, bif s.closed then s.setM .dfr else (s.setClosed true).setM .t2)]
+  | .t2 => [(.m, (s.setCtxDone true).setM .t3)]
+  | .t3 => [(.m, (term3 p s).setM .dfr)]
+  | .dfr => mDfr s
+  | .c1 => [(.m, bif s.closed then s.setM .wgDone else (s.setClosed true).setM .c2)]
+  | .c2 => [(.m, (s.setCtxDone true).setM .c3)]
+  | .c3 => [(.m, (term3 p s).setM .wgDone)]
+  | .wgDone => [(.m, s.setM .ended)]
+  | .ended => []
+
+/-! ### reader R -/
+
+def Cnt.inc : Cnt → Cnt
+  | .zero => .one
+  | _ => .two
+
+def Cnt.dec : Cnt → Cnt
+  | .two => .one
+  | _ => .zero
+
+/-- `Recv` returns: a message the client sent (while the stream is not closed by the server), or a
+    non-encoding error (the stream is closed by the server, or the client has gone). -/
+def rRecv (s : State) : List (Ev × State) :=
+  (bif !s.torn then
+    [(Ev.readGood, bif s.fl.is .two then s.setFault .order
+                   else ((s.setR .hand).setRPos (!(s.fl.is .zero))).setFl s.fl.inc),
+     (Ev.readBad, s.setR .handBad),
+     (Ev.readSkip, s.setR .check)]
+   else []) ++
+  (bif s.torn || s.cliGone then [(Ev.readErr, s.setR .t1)] else [])
+
+def stepR (p : Params) (s : State) : List (Ev × State) :=
+  match s.r with
+  | .check => [(.r, s.setR (bif s.closed then .closeRx else .recv))]
+  | .recv => rRecv s
+  | .hand => bif s.ctxDone then [(.r, (s.setR .closeRx).setRPos false)] else []
+  | .handBad => bif s.ctxDone then [(.r, s.setR .closeRx)] else []
+  | .t1 => [(.r, bif s.closed then s.setR .closeRx else (s.setClosed true).setR .t2)]
+  | .t2 => [(.r, (s.setCtxDone true).setR .t3)]
+  | .t3 => [(.r, (term3 p s).setR .closeRx)]
+  | .closeRx => [(.r, s.setR .ended)]
+  | .ended => []
+
+/-! ### writer W -/
+
+/-- the bookkeeping of a successful write. -/
+def written (s : State) : State :=
+  bif s.invProd then
+    (bif s.invWr then s.setFault .invalidTwice else (s.setW .closeOk).setInvWr true)
+  else bif s.pPos || s.fl.is .zero then s.setFault .order
+  else (((s.setW .closeOk).setPPos false).setRPos false).setFl s.fl.dec
+
+def wIo (s : State) : List (Ev × State) :=
+  (bif !s.torn then [(Ev.wOk, written s)] else []) ++
+  (bif s.torn || s.cliGone then [(Ev.wFail, (s.setW .errSend).setPPos false)] else [])
+
+/-- `req.err <- err`. Buffered: immediate. Unbuffered (old): a rendezvous with M waiting in
+    `waitErr`, otherwise blocked. -/
+def wErrSend (p : Params) (s : State) : List (Ev × State) :=
+  bif s.errClosed then [(.w, s.setFault .sendOnClosed)]
+  else bif Nat.blt 0 p.errChCap then
+    (bif s.errVal then [] else [(.w, (s.setErrVal true).setW .errClose)])
+  else
+    (bif s.m.is .waitErr then [(.w, (s.setW .errClose).setM .dfr)] else [])
+
+def wSel (p : Params) (s : State) : List (Ev × State) :=
+  (bif txClosed p s then [(Ev.w, s.setW .ended)] else []) ++
+  (bif s.ctxDone then [(Ev.w, s.setW .ended)] else [])
+
+def stepW (p : Params) (s : State) : List (Ev × State) :=
+  match s.w with
+  | .check => [(.w, s.setW (bif s.closed then .ended else .sel))]
+  | .sel => wSel p s
+  | .io => wIo s
+  | .closeOk => [(.w, (closeErrCh s).setW .check)]
+  | .errSend => wErrSend p s
+  | .errClose => [(.w, (closeErrCh s).setW .t1)]
+  | .t1 => [(.w, bif s.closed then s.setW .ended else (s.setClosed true).setW .t2)]
+  | .t2 => [(.w, (s.setCtxDone true).setW .t3)]
+  | .t3 => [(.w, (term3 p s).setW .ended)]
+  | .ended => []
+
+def stepEnv (s : State) : List (Ev × State) :=
+  (bif !s.cliGone then [(Ev.cliGone, s.setCliGone true)] else []) ++
+  (bif !s.ctxDone then [(Ev.srvCancel, s.setCtxDone true)] else [])
+
+/-- labelled successors. A faulted state has none (a panic takes the whole process down). -/
+def stepL (p : Params) (s : State) : List (Ev × State) :=
+  bif !(s.fault.is .none) then [] else stepM p s ++ stepR p s ++ stepW p s ++ stepEnv s
+
+def sys (p : Params) : Sys State := { init := init, step := fun s => (stepL p s).map (·.2) }
+
+/-! ### predicates -/
+
+def allEnded (s : State) : Bool := s.m.is .ended && s.r.is .ended && s.w.is .ended
+
+/-- a Go run-time panic. -/
+def crashed (s : State) : Bool := s.fault.is .sendOnClosed || s.fault.is .closeOfClosed
+
+/-- the peer has gone or the connection context is cancelled, a goroutine has not ended, and
+    nothing the server itself can do is enabled: the remaining goroutines are kept forever. -/
+def stuck (p : Params) (s : State) : Bool :=
+  (s.cliGone || s.ctxDone) && !allEnded s && s.fault.is .none &&
+    ((stepL p s).all (fun e => e.1.isEnv))
+
+/-- the one shape in which the CURRENT code does keep the goroutines of a connection whose client
+    has gone: the handler waits for the cancellation of its context while the reader, holding a
+    pipelined message it cannot deliver, is not reading and therefore never sees the end of the
+    stream. Only the handler returning by itself or the server context (Shutdown) ends it. -/
+def waitsOnPipelined (s : State) : Bool :=
+  s.m.is .handleSlow && (s.r.is .hand || s.r.is .handBad) && !s.ctxDone
+
+/-- the connection is live and idle: the owner waits for the next request, the reader holds none. -/
+def idleLive (s : State) : Bool :=
+  s.m.is .recvSel && !(s.r.is .hand) && !(s.r.is .handBad) && !s.closed && !s.ctxDone
+
+/-- responses are not the in-order, one-for-one image of the decodable requests read. -/
+def misordered (s : State) : Bool :=
+  s.fault.is .order || (idleLive s && !(s.fl.is .zero))
+
+/-- the invalid-message response: a second one, one written that was never produced, or the
+    connection goes on serving after it. -/
+def invalidBad (s : State) : Bool :=
+  s.fault.is .invalidTwice || (s.invWr && !s.invProd) ||
+  (s.invProd && (s.m.is .handle || s.m.is .handleSlow || s.m.is .recvSel || s.m.is .recvCheck))
+
+/-- terminate hook: twice, without a successful connect hook, not exactly once when the owner has
+    ended after a successful connect hook, or before a handler / the connect hook. -/
+def hookBad (s : State) : Bool :=
+  s.fault.is .hookTwice || (s.termHook && !s.hookOk) ||
+  (s.m.is .ended && (s.termHook ^^ s.hookOk)) ||
+  (s.termHook && (s.m.is .handle || s.m.is .handleSlow || s.m.is .hook || s.m.is .recvSel))
+
+def bad (p : Params) (s : State) : Bool :=
+  crashed s || (stuck p s && !waitsOnPipelined s) || misordered s || invalidBad s || hookBad s
+
+/-! ### coding -/
+
 /-- the digits of a state with their radices. -/
 def digits (s : State) : List (Nat × Nat) :=
   [(s.m.toNat, 20), (s.r.toNat, 9), (s.w.toNat, 10), (bToNat s.cliGone, 2), (s.fault.toNat, 6),
@@ -389,8 +481,44 @@ def ofDigits : List Nat → State
       pPos := bOfNat a13, invProd := bOfNat a14, invWr := bOfNat a15, termHook := bOfNat a16 }
   | _ => init
 
-def code (s : State) : Nat := pack (digits s)
-def decode (n : Nat) : State := ofDigits (unpack radices n)
+/-- the code: `pack (digits s)` (see `code_eq`), written out with the primitives the kernel
+    evaluates natively. -/
+def code (s : State) : Nat :=
+  Nat.add s.m.toNat (Nat.mul 20 (Nat.add s.r.toNat (Nat.mul 9 (Nat.add s.w.toNat (Nat.mul 10
+  (Nat.add (bToNat s.cliGone) (Nat.mul 2 (Nat.add s.fault.toNat (Nat.mul 6
+  (Nat.add (bToNat s.closed) (Nat.mul 2 (Nat.add (bToNat s.ctxDone) (Nat.mul 2
+  (Nat.add (bToNat s.torn) (Nat.mul 2 (Nat.add (bToNat s.errVal) (Nat.mul 2
+  (Nat.add (bToNat s.errClosed) (Nat.mul 2 (Nat.add (bToNat s.hookOk) (Nat.mul 2
+  (Nat.add s.fl.toNat (Nat.mul 3 (Nat.add (bToNat s.rPos) (Nat.mul 2
+  (Nat.add (bToNat s.pPos) (Nat.mul 2 (Nat.add (bToNat s.invProd) (Nat.mul 2
+  (Nat.add (bToNat s.invWr) (Nat.mul 2 (bToNat s.termHook))))))))))))))))))))))))))))))))
+
+theorem code_eq (s : State) : code s = pack (digits s) := rfl
+/-- digit `k` of `n` is `n / Wₖ % rₖ` (`decode_eq`: this is `ofDigits (unpack radices n)`). -/
+def decode (n : Nat) : State :=
+  { m := .ofN (Nat.mod (Nat.div n 1) 20),
+    r := .ofN (Nat.mod (Nat.div n 20) 9),
+    w := .ofN (Nat.mod (Nat.div n 180) 10),
+    cliGone := bOfNat (Nat.mod (Nat.div n 1800) 2),
+    fault := .ofN (Nat.mod (Nat.div n 3600) 6),
+    closed := bOfNat (Nat.mod (Nat.div n 21600) 2),
+    ctxDone := bOfNat (Nat.mod (Nat.div n 43200) 2),
+    torn := bOfNat (Nat.mod (Nat.div n 86400) 2),
+    errVal := bOfNat (Nat.mod (Nat.div n 172800) 2),
+    errClosed := bOfNat (Nat.mod (Nat.div n 345600) 2),
+    hookOk := bOfNat (Nat.mod (Nat.div n 691200) 2),
+    fl := .ofN (Nat.mod (Nat.div n 1382400) 3),
+    rPos := bOfNat (Nat.mod (Nat.div n 4147200) 2),
+    pPos := bOfNat (Nat.mod (Nat.div n 8294400) 2),
+    invProd := bOfNat (Nat.mod (Nat.div n 16588800) 2),
+    invWr := bOfNat (Nat.mod (Nat.div n 33177600) 2),
+    termHook := bOfNat (Nat.mod (Nat.div n 66355200) 2) }
+
+theorem decode_eq (n : Nat) : decode n = ofDigits (unpack radices n) := by
+  have h := unpackW_eq radices 1 n
+  rw [Nat.div_one] at h
+  rw [← h]
+  rfl
 
 theorem digits_radices (s : State) : (digits s).map (·.2) = radices := rfl
 
@@ -398,7 +526,7 @@ theorem digits_lt (s : State) : ∀ d ∈ digits s, d.1 < d.2 := by
   simp [digits, MPc.toNat_lt, RPc.toNat_lt, WPc.toNat_lt, Fault.toNat_lt, Cnt.toNat_lt, bToNat_lt]
 
 theorem decode_code (s : State) : decode (code s) = s := by
-  unfold decode code
+  rw [code_eq, decode_eq]
   rw [← digits_radices s, unpack_pack _ (digits_lt s)]
   cases s
   simp only [digits, List.map_cons, List.map_nil, ofDigits, MPc.ofN_toNat, RPc.ofN_toNat,
